@@ -17,6 +17,79 @@ func init() { Registry["C09"] = c09 }
 
 // chanKey canonicalises a channel value: a struct field ("field:T.f"), or a local channel of function F
 // ("local:F:<render>"), resolving captured variables to the binding in the enclosing function.
+// libraryOwnedChan: v is (a local copy of) a receive-only channel that a function outside the repository returned.
+func libraryOwnedChan(v ssa.Value) bool {
+	for i := 0; i < 6; i++ {
+		v = Deref(v)
+		switch x := v.(type) {
+		case *ssa.UnOp:
+			if x.Op != token.MUL {
+				return false
+			}
+			switch a := x.X.(type) {
+			case *ssa.FreeVar:
+				b := freeVarBinding(a)
+				if b == nil {
+					return false
+				}
+				if al, ok := b.(*ssa.Alloc); ok {
+					sv := SingleStore(al)
+					if sv == nil {
+						return false
+					}
+					v = sv
+					continue
+				}
+				v = b
+				continue
+			case *ssa.Alloc:
+				sv := SingleStore(a)
+				if sv == nil {
+					return false
+				}
+				v = sv
+				continue
+			}
+			return false
+		case *ssa.FreeVar:
+			b := freeVarBinding(x)
+			if b == nil {
+				return false
+			}
+			v = b
+			continue
+		case *ssa.ChangeType:
+			v = x.X
+			continue
+		case *ssa.Extract:
+			call, ok := x.Tuple.(*ssa.Call)
+			if !ok {
+				return false
+			}
+			return libraryCallResult(call, x.Type())
+		case *ssa.Call:
+			return libraryCallResult(x, x.Type())
+		}
+		return false
+	}
+	return false
+}
+
+func libraryCallResult(call *ssa.Call, t types.Type) bool {
+	ch, ok := t.Underlying().(*types.Chan)
+	if !ok || ch.Dir() != types.RecvOnly {
+		return false
+	}
+	cc := call.Common()
+	if cc.IsInvoke() {
+		// an interface declared outside the repository
+		n := NamedOf(cc.Value.Type())
+		return n != nil && n.Obj().Pkg() != nil && !strings.HasPrefix(n.Obj().Pkg().Path(), "github.com/honeytrap/honeytrap")
+	}
+	f := cc.StaticCallee()
+	return f != nil && !InRepo(f)
+}
+
 func chanKey(v ssa.Value) string {
 	v = Deref(v)
 	switch x := v.(type) {
@@ -70,6 +143,7 @@ func c09(c *Ctx) {
 		"a Read that can only return (n, nil) makes every read-until-error handler spin after the data is consumed; (3) every listener opened in handler-reachable code (net.Listen*, tls.NewListener) is stored where a Close of the owner reaches it and is closed after the accept; " +
 		"(4) the dispatcher hands services the idle-timeout wrapper whose Read/Write re-arm the deadline (shared with C08); (5) handlers do not select their datagram path by a connection type the dispatcher never passes (dead branch => io.Copy over a connection that never errors)."
 	c.Assume("operating-system level release (descriptor counts) and timing are not observable statically")
+	c.Assume("receive-only channels handed out by a library (x/crypto/ssh's channel and request queues) are closed by the library when their connection ends, and are filled by the connection's reader goroutine through a bounded buffer")
 	svcs := Services(c)
 	g := p.VTA()
 	listed := map[string]bool{}
@@ -183,6 +257,12 @@ func c09(c *Ctx) {
 						ch = g.Common().Args[idx]
 					}
 				}
+			}
+			if libraryOwnedChan(ch) {
+				// a receive-only channel handed out by a library call (x/crypto/ssh's request and channel queues):
+				// only the library can close it, and it does when the connection it belongs to ends
+				okAny = true
+				continue
 			}
 			k := chanKey(ch)
 			if strings.HasPrefix(k, "field:") {
@@ -516,6 +596,7 @@ func c09(c *Ctx) {
 	c08TimeoutConn(c)
 	if find := p.Method("server", "Honeytrap", "findService"); find != nil {
 		c08Dispatcher(c, find)
+		c09PeekUnderDeadline(c, find)
 	}
 
 	// ---- (5) dead datagram branches in the listed services
@@ -556,6 +637,7 @@ func c09(c *Ctx) {
 	c09OwnerCloseReleasesAll(c)
 	c09DataSocketReplaced(c)
 	c09OwnerCloseDeferred(c)
+	c09LibraryQueuesDrained(c, svcs, listed)
 }
 
 // exitChannelsOf: channels whose closed/receive arm guards the return r (range over chan exhausted, v,ok := <-ch with !ok,
